@@ -47,8 +47,35 @@ func render(c obs.Call) func() string {
 	return func() string { return obs.Render(c.Fn()) }
 }
 
+const preReadPath = "encoding-and-print-as-before-any-read"
+
+// preRead: the value's encoding and printed form taken BEFORE anything else has been called on it (the enumeration of
+// its operations calls the getters once to find nested values); the operation compares with what they are now.
+func preRead(v any) op {
+	snap := func() string {
+		var b strings.Builder
+		if e, ok := v.(interface{ ToBytes() []byte }); ok {
+			fmt.Fprintf(&b, "%x|", safe(func() string { return string(e.ToBytes()) }))
+		}
+		if e, ok := v.(interface{ Summary() string }); ok {
+			b.WriteString(safe(e.Summary))
+		} else if e, ok := v.(fmt.Stringer); ok {
+			b.WriteString(safe(e.String))
+		}
+		return b.String()
+	}
+	before := snap()
+	return op{preReadPath, func() string {
+		if now := snap(); now != before {
+			return fmt.Sprintf("CHANGED: before any read %.300q, now %.300q", before, now)
+		}
+		return "same"
+	}}
+}
+
 func opsOf(v any, extra ...op) []op {
 	var out []op
+	out = append(out, preRead(v))
 	for _, c := range obs.Enumerate(v, 4) {
 		out = append(out, op{c.Path, render(c)})
 	}
@@ -160,6 +187,10 @@ func judge(r *mon.Rec, kind string, idx int, s subject, rng *rand.Rand) {
 		r.Count("subjects_with_pristine_reference", 1)
 	} else {
 		ref = evaluate(base, fwd, false)
+	}
+	if v, ok := ref[preReadPath]; ok && v != "same" {
+		r.Violate("C20:read-changes-encoding", fmt.Sprintf("%s: its encoding / printed form is not what it was before any accessor had been called: %s", s.desc, v), rp)
+		return
 	}
 	compare := func(tag string, got map[string]string, ops []op, order []int) bool {
 		for _, i := range order {
@@ -416,14 +447,15 @@ func subjectFor(r *mon.Rec, kind string, idx int, typed map[int]string) subject 
 			default:
 				edited = edited[:len(edited)-1]
 			}
-			l.Labels = append([]string{}, edited...)
 			restore := op{"restore-names+ToBytes+re-edit", func() string {
 				l.Labels = append([]string{}, parsed...)
 				b := l.ToBytes()
 				l.Labels = append([]string{}, edited...)
 				return fmt.Sprintf("%x", b)
 			}}
-			return opsOf(l, restore)
+			ops := opsOf(l, restore) // enumerated (which calls the getters once) while the set is as parsed; edited afterwards
+			l.Labels = append([]string{}, edited...)
+			return ops[1:] // without the pre-read snapshot, which was taken before the edit
 		}, true}
 	case "duid":
 		return subject{"standalone DUID", func() []op {
